@@ -26,3 +26,27 @@ Proof.
   intros H. pose proof (rprod_pos l H) as Hp. replace ((rprod l) ^ 2) with (rprod l * rprod l) by ring.
   rewrite ln_mult by assumption. rewrite ln_rprod by assumption. ring.
 Qed.
+
+(* the repaired large-dimension branch reports log det(P + e I) - nullity log e = sum_i ln(l_i + e) over the non-zero
+   eigenvalues l_i (spectral step not formalised): it exceeds the pseudo-log-determinant sum_i ln l_i by at most
+   e * sum_i 1/l_i = e * trace(P^+), and never falls below it *)
+Lemma ln_1p_le x : 0 <= x -> ln (1 + x) <= x.
+Proof.
+  intros [Hx | <-]; [|rewrite Rplus_0_r, ln_1; lra].
+  rewrite <- (ln_exp x) at 2. left. apply ln_increasing; [lra | apply exp_ineq1; lra].
+Qed.
+
+Theorem logdet_regularised_bound l e : Forall (fun a => 0 < a) l -> 0 < e ->
+  0 <= rsum (map (fun a => ln (a + e)) l) - rsum (map ln l) <= e * rsum (map Rinv l).
+Proof.
+  intros H He; induction H as [|a l Ha Hl IH]; cbn [rsum map fold_right]; [lra|].
+  fold (rsum (map (fun a0 => ln (a0 + e)) l)) (rsum (map ln l)) (rsum (map Rinv l)).
+  assert (E : ln (a + e) = ln a + ln (1 + e / a)).
+  { rewrite <- ln_mult; [f_equal; field; lra | exact Ha |].
+    assert (0 < e / a) by (apply Rdiv_lt_0_compat; assumption). lra. }
+  assert (0 <= e / a) by (left; apply Rdiv_lt_0_compat; assumption).
+  pose proof (ln_1p_le (e / a) H) as Hu.
+  assert (Hl0 : 0 <= ln (1 + e / a)).
+  { rewrite <- ln_1. destruct H as [H | <-]; [left; apply ln_increasing; lra | rewrite Rplus_0_r; lra]. }
+  unfold Rdiv in *. rewrite E. lra.
+Qed.
